@@ -89,6 +89,8 @@ def parse_spec(path):
             head = toks[0]
             if head == 'unit':
                 u.name = toks[1]
+            elif head == 'only':
+                pass  # read by engines.units_for: this unit serves only the listed properties
             elif head == 'prelude':
                 u.preludes.append(toks[1])
             elif head == 'structpub':
